@@ -213,7 +213,7 @@ pub fn runner_config(cases: u32) -> Config {
         source_file: None,
         test_name: None,
         max_shrink_time: 0,
-        max_shrink_iters: 4096,
+        max_shrink_iters: 1200,
         verbose: 0,
         rng_algorithm: RngAlgorithm::ChaCha,
         ..Config::default()
@@ -304,6 +304,10 @@ where
                             runner = TestRunner::new_with_rng(runner_config(n as u32), rng);
                         }
                         let res = runner.run(&strat, |case: C| {
+                            // another worker owns a failure (it is shrinking it): stop exploring, cheaply
+                            if abort.load(Ordering::Relaxed) && !failed.get() {
+                                return Ok(());
+                            }
                             let out = match catch(|| check(&case)) {
                                 Ok(o) => o,
                                 Err(p) => {
@@ -324,7 +328,13 @@ where
                                         return Ok(());
                                     }
                                 }
-                                failed.set(true);
+                                if !failed.get() {
+                                    // only one worker shrinks; the others stand down
+                                    if abort.swap(true, Ordering::SeqCst) {
+                                        return Ok(());
+                                    }
+                                    failed.set(true);
+                                }
                                 return Err(TestCaseError::fail(msg.clone()));
                             }
                             if !failed.get() {
